@@ -88,6 +88,19 @@ pub fn register(ctx: &mut Context, log: &Log) {
         rec(&l, "mo", &[&this, &y, &z]);
         pack(&[&this, &y, &z])
     });
+    // the receiver is not the first parameter: in function style it is the argument at its own position
+    let l = log.clone();
+    ctx.add_function("rs", move |a: i64, This(this): This<Value>| -> R {
+        let x = Value::Int(a);
+        rec(&l, "rs", &[&x, &this]);
+        pack(&[&x, &this])
+    });
+    let l = log.clone();
+    ctx.add_function("mw", move |a: Arc<String>, This(this): This<i64>, b: Value| -> R {
+        let (x, y) = (Value::String(a), Value::Int(this));
+        rec(&l, "mw", &[&x, &y, &b]);
+        pack(&[&x, &y, &b])
+    });
     let l = log.clone();
     ctx.add_function("m0", move |This(this): This<Value>| -> R {
         rec(&l, "m0", &[&this]);
@@ -201,5 +214,5 @@ pub fn register_variadic(ctx: &mut Context, log: &Log, name: &str) {
 
 pub const ZOO_NAMES: &[&str] = &[
     "t", "tb", "fail", "h0", "h1", "h2", "h3", "h4", "m0", "m1", "m2", "m3", "va", "idf", "fi", "fu", "fd",
-    "fs", "fy", "fb", "fl", "fis", "msi", "h9", "c0", "c2", "mo",
+    "fs", "fy", "fb", "fl", "fis", "msi", "h9", "c0", "c2", "mo", "rs", "mw",
 ];
